@@ -121,6 +121,7 @@ def cases(g):
     sh = g.shape()
     kind = r.choice('fib')
     A = g.nested(sh, kind, nanp=0.25 if kind == 'f' else 0)
+    full = g.nested(sh, 'b')
     ax = r.randrange(len(sh))
     axn = r.choice([None, ax, ax - len(sh)])
     for name in ('sum', 'prod', 'min', 'max', 'mean', 'var', 'std', 'median', 'all', 'any', 'argmin', 'argmax', 'ptp',
@@ -142,6 +143,36 @@ def cases(g):
                 res = res.filled(np.nan)
             return res
         yield 'ma.%s' % name, fm
+    for name in ('sum', 'prod', 'mean', 'min', 'max', 'std', 'var'):
+        def fm2(np, name=name, viaNp=(r.random() < 0.5)):
+            a = np.array(Af)
+            mm = np.ma.array(a, mask=np.isnan(a))
+            res = getattr(np if viaNp else np.ma, name)(mm, axis=axn)
+            if np.ma.isMaskedArray(res):
+                res = res.filled(np.nan)
+            return res
+        yield 'ma2.%s' % name, fm2
+    def fptp(np):
+        a = np.array(Af)
+        res = np.ptp(np.ma.array(a, mask=np.isnan(a)), axis=axn)
+        return res.filled(np.nan) if np.ma.isMaskedArray(res) else res
+    yield 'np.ptp(ma)', fptp
+    for order in ('C', 'F', 'K', 'A'):
+        yield 'ravel.%s' % order, (lambda np, order=order: (np.array(A).ravel(order=order), np.array(A).T.ravel(order=order), np.array(A).T.flatten(order=order)))
+    def fput(np, which):
+        x = np.array(A, dtype=float)
+        mk = np.array(full)
+        if which == 'putmask':
+            np.putmask(x, mk, [7., 8., 9.])
+        elif which == 'place':
+            np.place(x, mk, [7., 8.])
+        elif which == 'copyto':
+            np.copyto(x, 5.0, where=mk)
+        else:
+            np.put(x, [0, x.size - 1], [7., 8.])
+        return x
+    for which in ('putmask', 'place', 'copyto', 'put'):
+        yield which, (lambda np, which=which: fput(np, which))
     # binary ops
     sh2 = r.choice([sh, sh[-1:], (1,) * len(sh), ()])
     k2 = r.choice('fib')
@@ -192,6 +223,10 @@ def cases(g):
     if r.random() < 0.3:
         key = key[0]
     yield 'getitem', lambda np: np.array(A)[_conv(np, key)]
+    yield 'getitem.bool', lambda np: (np.array(A)[True].shape, np.array(A)[False].shape)
+    def fsb(np):
+        a = np.array(A, dtype=float); a[r.random() < 0.5] = 4.0; return a
+    yield 'setitem.bool', fsb
     V = r.choice([7, 1.5, g.nested(sh[-1:], 'i'), True])
     def fset(np):
         a = np.array(A)
@@ -200,7 +235,6 @@ def cases(g):
     yield 'setitem', fset
     lists = [sorted(set(r.randint(0, s - 1) for _ in range(r.randint(0, 2)))) if r.random() < 0.7 else g.bools(s) for s in sh]
     yield 'ix_', lambda np: np.array(A)[np.ix_(*[np.array(l, dtype=(bool if l and isinstance(l[0], bool) else int)) for l in lists])]
-    full = g.nested(sh, 'b')
     yield 'boolmask', lambda np: np.array(A)[np.array(full)]
     yield 'where1', lambda np: np.where(np.array(full))
     yield 'nonzero', lambda np: np.nonzero(np.array(full))
